@@ -16,7 +16,8 @@ class NoFormatFrameData(IFLR):
         super().__init__()
 
         self.no_format_object = no_format_object
-        self.data = data
+        # a bytearray is the caller's buffer, possibly refilled for the next record: keep what it holds now
+        self.data = bytes(data) if isinstance(data, bytearray) else data
 
     def _make_body_bytes(self) -> bytes:
         """Create bytes representing the body of the object."""
